@@ -59,6 +59,7 @@ def interleaved(ctx):
         exprs.append(ischedule_expr(configured, enter, first, snap0, occ0, out))
         labels = [l for (l, app, snap, dels, occ, exc, *_) in out if app]
         reached, conc, ready_open = set(), 0, False
+        iopen = {"LOCATING": any(d[0] == "LOCATING_STARTED" for d in first), "CONNECTION": False}
         prev_occ = occ0
         for j, (l, app, snap, dels, occ, exc, *_) in enumerate(out):
             if not app:
@@ -68,6 +69,14 @@ def interleaved(ctx):
             conc += sum(occ) >= 2
             ctx.count("ischedule_steps")
             for d in dels:
+                for ph in iopen:
+                    if d[0] == ph + "_STARTED":
+                        if iopen[ph]:
+                            ctx.fail("lifecycle:phase_not_closed:" + ph, "%s_STARTED delivered while the previous %s phase never got its %s_FINISHED (interleaved schedule)" % (ph, ph, ph),
+                                     {"configured": configured, "schedule": hist})
+                        iopen[ph] = True
+                    elif d[0] == ph + "_FINISHED":
+                        iopen[ph] = False
                 if d[0] == "CLIENT_FACADE_IS_READY":
                     if d[1] != "CONNECTED" or not d[2]:
                         ctx.fail("lifecycle:ready", "CLIENT_FACADE_IS_READY delivered in state %s, facade present=%s (interleaved schedule)" % (d[1], d[2]), {"configured": configured, "schedule": hist})
@@ -159,11 +168,33 @@ def run(ctx):
             traces.append((True, prefix + list(combo)))
     exprs, meta = [], []
     for configured, labels in traces:
-        enter, out, pump_alive = lifecycle.run_trace(configured, labels)
+        try:
+            enter, out, pump_alive = lifecycle.run_trace(configured, labels)
+        except RuntimeError as e:
+            if "deadlock" not in str(e):
+                raise
+            # nothing is scheduled any more although the script has labels left: a task of the manager the rig waits for is gone
+            for cut in range(1, len(labels) + 1):
+                try:
+                    lifecycle.run_trace(configured, labels[:cut])
+                except RuntimeError:
+                    break
+            ctx.fail("lifecycle:manager_stops", "the manager stops dead (no task left to run) during the label sequence", {"configured": configured, "labels": labels[:cut]})
+            continue
         steps = []
         reached = set()
         ready, tear = 0, 0
+        open_phase = {"LOCATING": False, "CONNECTION": False}
         for (l, applicable, snap, dels) in out:
+            for d in dels:
+                for ph in open_phase:
+                    if d[0] == ph + "_STARTED":
+                        if open_phase[ph]:
+                            ctx.fail("lifecycle:phase_not_closed:" + ph, "%s_STARTED delivered while the previous %s phase never got its %s_FINISHED" % (ph, ph, ph),
+                                     {"configured": configured, "labels": labels[:len(steps) + 1]})
+                        open_phase[ph] = True
+                    elif d[0] == ph + "_FINISHED":
+                        open_phase[ph] = False
             steps.append("(%s, %s, (%s, %s, %s, %s), [%s])" % (clabel(l), vf.cbool(applicable), snap[0], vf.cbool(snap[1]), vf.cbool(snap[2]), vf.cbool(snap[3]),
                                                             "; ".join(cdel(d) for d in dels if d[0] != "EXCEPTION")))
             reached.add(snap[0])
